@@ -13,4 +13,4 @@ Definition consumer_nonfinal : list istate := [Wait; Start].
 Definition consumer_keeps_early_parts : bool := true.
 Definition txid_under_lock : bool := true.
 Definition consumer_state_under_lock : bool := true.
-Definition sco_full_queue_loses_wait : bool := true.
+Definition sco_full_queue_loses_wait : bool := false.
